@@ -63,6 +63,7 @@ func vpH_C03_headLog_order_faults() {
 	}
 	var wantF []record.RefSample
 	var wantH []record.RefHistogramSample
+	var wantKinds, gotKinds []record.Type // data records in the order replay must see them
 	for b := 0; b < 2; b++ {
 		batch := &appendBatch{}
 		if vpShape("floats", 0, 1) == 1 {
@@ -70,15 +71,23 @@ func vpH_C03_headLog_order_faults() {
 			batch.floats = append(batch.floats, s)
 			wantF = append(wantF, s)
 		}
-		if vpShape("hists", 0, 1) == 1 {
+		hk := vpShape("hists", 0, 3) // 0 none, 1 exponential, 2 custom buckets, 3 both in this batch
+		if len(batch.floats) > 0 {
+			wantKinds = append(wantKinds, record.Samples)
+		}
+		if hk&1 != 0 {
 			hh := &histogram.Histogram{Count: vpXSm(), Sum: 1}
-			if b == 1 {
-				hh.Schema = histogram.CustomBucketsSchema
-				hh.CustomValues = []float64{1}
-			}
 			s := record.RefHistogramSample{Ref: chunks.HeadSeriesRef(vpXSm()), T: int64(vpXSm()), H: hh}
 			batch.histograms = append(batch.histograms, s)
 			wantH = append(wantH, s)
+			wantKinds = append(wantKinds, record.HistogramSamples)
+		}
+		if hk&2 != 0 {
+			hh := &histogram.Histogram{Count: vpXSm(), Sum: 1, Schema: histogram.CustomBucketsSchema, CustomValues: []float64{1}}
+			s := record.RefHistogramSample{Ref: chunks.HeadSeriesRef(vpXSm()), T: int64(vpXSm()), H: hh}
+			batch.histograms = append(batch.histograms, s)
+			wantH = append(wantH, s)
+			wantKinds = append(wantKinds, record.CustomBucketsHistogramSamples)
 		}
 		a.batches = append(a.batches, batch)
 	}
@@ -107,6 +116,7 @@ func vpH_C03_headLog_order_faults() {
 			}
 		case record.Samples:
 			sawData = true
+			gotKinds = append(gotKinds, record.Samples)
 			ss, derr := dec.Samples(rec, nil)
 			vpAssert(derr == nil, "sample record decodes")
 			for _, s := range ss {
@@ -119,6 +129,7 @@ func vpH_C03_headLog_order_faults() {
 			}
 		case record.HistogramSamples, record.CustomBucketsHistogramSamples:
 			sawData = true
+			gotKinds = append(gotKinds, dec.Type(rec))
 			hs, derr := dec.HistogramSamples(rec, nil)
 			vpAssert(derr == nil, "histogram record decodes")
 			for _, x := range hs {
@@ -135,5 +146,11 @@ func vpH_C03_headLog_order_faults() {
 	}
 	vpAssert(r.Err() == nil, "log readable to its end")
 	vpAssert(gotSeries == nSeries && gotF == len(wantF) && gotH == len(wantH), "every pending item was logged exactly once")
+	vpAssert(len(gotKinds) == len(wantKinds), "one record per sample kind and batch")
+	if len(gotKinds) == len(wantKinds) {
+		for i := range wantKinds {
+			vpAssert(gotKinds[i] == wantKinds[i], "records in replay order: per batch float samples, then histograms, then custom-bucket histograms")
+		}
+	}
 	vpReach("logged")
 }
